@@ -5,6 +5,8 @@
 #![allow(clippy::too_many_arguments)]
 mod contracts;
 mod examples;
+mod fung;
+mod obs;
 mod props;
 mod report;
 mod rng;
